@@ -239,6 +239,11 @@ def gen(rng, tier, index=0):
     if (plan['slowstop'] or plan['oasync']) and rng.random() < 0.5:
         plan['term2'] = {'dt': rng.choice([0.0, 1e-6, 0.001, 0.05, 0.2, 0.6, 3.0]),
                          'how': rng.choice(TERM2_DRIVER)}
+    # a sixth of the blocks are instances of a subclass that adds nothing (Timer, InputExp and
+    # generated classes alike): the timed behaviour must be inherited (defect F27)
+    for b in plan['blocks']:
+        if rng.random() < 0.17:
+            b['subclass'] = True
     return plan
 
 
@@ -688,6 +693,9 @@ def build(run, plan):
         rec_n += 1
         if b['kind'] == 'gfsm':
             cls = fsmlib.build_class(b['spec'], mon.sink)
+            if b.get('subclass'):
+                cls = type(cls.__name__ + 'Sub', (cls,), {'__doc__': 'adds nothing'})
+                run.fired('reach:trivial_subclass')
             states = model.states
             kw = {}
             for s in states:
@@ -706,7 +714,11 @@ def build(run, plan):
             if inst.get('initdef'):
                 kw['initdef'] = inst['initdef']
             try:
-                blk = edzed.Timer(
+                tcls = edzed.Timer
+                if b.get('subclass'):
+                    tcls = type('TimerSub', (edzed.Timer,), {'__doc__': 'adds nothing'})
+                    run.fired('reach:trivial_subclass')
+                blk = tcls(
                     inst['name'], restartable=inst.get('restartable', True),
                     on_enter_on=edzed.Event(nonlocal_rec, 'enter'),
                     on_enter_off=edzed.Event(nonlocal_rec, 'enter'),
@@ -722,7 +734,11 @@ def build(run, plan):
             if 'init_value' in inst:
                 kw['initdef'] = inst['init_value']
             try:
-                blk = edzed.InputExp(
+                icls = edzed.InputExp
+                if b.get('subclass'):
+                    icls = type('InputExpSub', (edzed.InputExp,), {'__doc__': 'adds nothing'})
+                    run.fired('reach:trivial_subclass')
+                blk = icls(
                     inst['name'], duration=inst.get('duration'), expired=inst.get('expired'),
                     on_enter_valid=edzed.Event(nonlocal_rec, 'enter'),
                     on_enter_expired=edzed.Event(nonlocal_rec, 'enter'),
